@@ -1,48 +1,709 @@
+// C18 runner: the tag-driven command tables and the JSON codec of spine-go against
+// the models coq/Model/CmdTables.v + JsonCodec.v (machine: coq/Model/CmdWire.v).
+//
+// op encoding (parse_op in CmdWire.v); <..> are trees in the integer encoding of c18lib/tree.go:
+//
+//	0 ft fn shape <data> <sel> <el>   build the command of the shape with the real API for the
+//	                                  function entry fn registered for feature type ft, json.Marshal,
+//	                                  json.Unmarshal, CmdType.Data / ExtractFilter / FilterType.Data
+//	1 tid <value>                     json.Marshal the value of struct type tid, Unmarshal it again
+//	2 tid <json>                      json.Unmarshal an arbitrary JSON tree into struct type tid
+//
+// obs encoding (print_obs): 10 <json> | 11 fn idx ty <value> | 16 | 12/13 present fn selty elty <sel> <el>
+// | 14 <value> | 17 code | 19 site | 20 | 21.
+//
+// Struct ids, field positions and function indices are those of the translator tables
+// (same reflection closure, c18lib).
 package main
 
 import (
+	"bytes"
+	"encoding/json"
 	"fmt"
+	"os"
+	"path/filepath"
+	"reflect"
+	"strings"
+
+	"github.com/enbility/spine-go/api"
+	"github.com/enbility/spine-go/model"
 
 	"verifharness/c18lib"
+	"verifharness/hx"
 )
 
-func main() {
-	c := c18lib.NewClosure()
-	fa, err := c18lib.NewFactory(c, "/var/tmp/verif-wt.c18")
+var (
+	clo *c18lib.Closure
+	fac *c18lib.Factory
+	// statistics for the evidence
+	rowsRun       = map[string]int{}
+	shapesRun     = map[string]int{}
+	codecTypes    = map[int]int{}
+	decodeOutcome = map[string]int{}
+	panicsSeen    = map[string]int{}
+	notApplicable = 0
+	failingRows   = map[string]bool{}
+)
+
+var shapeNames = []string{"read", "read+selector", "read+elements", "reply", "notify/write full", "partial",
+	"partial+selector", "delete+selector", "delete+elements", "read+selector+elements", "reply partial",
+	"delete selector+elements, partial selector"}
+
+func needsSel(shape int64) bool {
+	switch shape {
+	case 1, 6, 7, 9, 11:
+		return true
+	}
+	return false
+}
+
+func needsEl(shape int64) bool {
+	switch shape {
+	case 2, 8, 9, 11:
+		return true
+	}
+	return false
+}
+
+func fnIndex(name string) int64 {
+	for _, f := range fac.Functions {
+		if f.Name == name {
+			return int64(f.Index)
+		}
+	}
+	return -2
+}
+
+func structID(v any) int64 {
+	t := reflect.TypeOf(v)
+	for t.Kind() == reflect.Ptr {
+		t = t.Elem()
+	}
+	if s, ok := clo.ByType[t]; ok {
+		return int64(s.ID)
+	}
+	return -3
+}
+
+func obs(tag int64, rest ...int64) hx.Zs { return append(hx.Zs{tag}, rest...) }
+
+func withTree(z hx.Zs, vs ...c18lib.V) hx.Zs {
+	out := []int64(z)
+	for _, v := range vs {
+		out = v.Ints(out)
+	}
+	return hx.Zs(out)
+}
+
+func panicSite(r any) int64 {
+	s := fmt.Sprint(r)
+	switch {
+	case strings.Contains(s, "reflect.Value.Convert"), strings.Contains(s, "reflect.Set"), strings.Contains(s, "not assignable"):
+		return 1
+	case strings.Contains(s, "nil pointer dereference"):
+		return 2
+	}
+	return 9
+}
+
+type impl struct{}
+
+func (impl) Close() {}
+
+// anyPtr turns a tree into the `any` argument of the builders: nil, or a pointer to a value of type s.
+func anyPtr(v c18lib.V, s *c18lib.Struct) any {
+	if v.IsNil() || s == nil {
+		return nil
+	}
+	return clo.FromTree(v, reflect.PointerTo(s.Type)).Interface()
+}
+
+func filterObs(which int64, f *model.FilterType) hx.Zs {
+	if f == nil {
+		return withTree(obs(12+which, 0, -1, -1, -1), c18lib.Nil, c18lib.Nil)
+	}
+	fd, err := f.Data()
+	if err != nil || fd == nil {
+		return withTree(obs(12+which, 1, -1, -1, -1), c18lib.Nil, c18lib.Nil)
+	}
+	fn := int64(-1)
+	if fd.Function != nil {
+		fn = fnIndex(string(*fd.Function))
+	}
+	selty, elty := int64(-1), int64(-1)
+	sv, ev := c18lib.Nil, c18lib.Nil
+	if fd.Selector != nil {
+		selty = structID(fd.Selector)
+		sv = clo.ToTree(reflect.ValueOf(fd.Selector))
+	}
+	if fd.Elements != nil {
+		elty = structID(fd.Elements)
+		ev = clo.ToTree(reflect.ValueOf(fd.Elements))
+	}
+	return withTree(obs(12+which, 1, fn, selty, elty), sv, ev)
+}
+
+func execRow(op hx.Zs) (out []hx.Zs) {
+	ft, fn, shape := op[1], op[2], op[3]
+	data, rest, err := c18lib.Parse(op[4:])
 	if err != nil {
+		return []hx.Zs{{97}}
+	}
+	sel, rest, err := c18lib.Parse(rest)
+	if err != nil {
+		return []hx.Zs{{97}}
+	}
+	el, rest, err := c18lib.Parse(rest)
+	if err != nil || len(rest) != 0 {
+		return []hx.Zs{{97}}
+	}
+	registered := false
+	for _, r := range fac.Registered {
+		if int64(r[0]) == ft && int64(r[1]) == fn {
+			registered = true
+		}
+	}
+	if !registered {
+		return []hx.Zs{{21}}
+	}
+	f := fac.Functions[fn]
+	if (needsSel(shape) && f.Sel == nil) || (needsEl(shape) && f.El == nil) {
+		notApplicable++
+		return []hx.Zs{{20}}
+	}
+	rowName := fmt.Sprintf("%s/%s/%s", fac.FeatureTypes[ft], f.Name, shapeNames[shape])
+	rowsRun[fac.FeatureTypes[ft]]++
+	shapesRun[shapeNames[shape]]++
+	defer func() {
+		if r := recover(); r != nil {
+			panicsSeen[fmt.Sprint(r)]++
+			failingRows[rowName] = true
+			out = append(out, obs(19, panicSite(r)))
+		}
+	}()
+	// the function data object the stack registers for this feature type
+	fds, ok := c18lib.CreateFor(model.FeatureTypeType(fac.FeatureTypes[ft]))
+	if !ok {
+		return []hx.Zs{{21}}
+	}
+	var fd api.FunctionDataCmdInterface
+	for _, x := range fds {
+		if string(x.FunctionType()) == f.Name && structID(x.DataCopyAny()) == int64(f.Data.ID) {
+			fd = x
+			break
+		}
+	}
+	if fd == nil {
+		return []hx.Zs{{21}}
+	}
+	if !data.IsNil() {
+		fd.UpdateDataAny(false, true, clo.FromTree(data, reflect.PointerTo(f.Data.Type)).Interface(), nil, nil)
+	}
+	s, e := anyPtr(sel, f.Sel), anyPtr(el, f.El)
+	var cmd model.CmdType
+	switch shape {
+	case 0:
+		cmd = fd.ReadCmdType(nil, nil)
+	case 1:
+		cmd = fd.ReadCmdType(s, nil)
+	case 2:
+		cmd = fd.ReadCmdType(nil, e)
+	case 3:
+		cmd = fd.ReplyCmdType(false)
+	case 4:
+		cmd = fd.NotifyOrWriteCmdType(nil, nil, false, nil)
+	case 5:
+		cmd = fd.NotifyOrWriteCmdType(nil, nil, true, nil)
+	case 6:
+		cmd = fd.NotifyOrWriteCmdType(nil, s, false, nil)
+	case 7:
+		cmd = fd.NotifyOrWriteCmdType(s, nil, false, nil)
+	case 8:
+		cmd = fd.NotifyOrWriteCmdType(nil, nil, false, e)
+	case 9:
+		cmd = fd.ReadCmdType(s, e)
+	case 10:
+		cmd = fd.ReplyCmdType(true)
+	default:
+		cmd = fd.NotifyOrWriteCmdType(s, s, false, e)
+	}
+	b, err := json.Marshal(cmd)
+	if err != nil {
+		return []hx.Zs{obs(17, 18)}
+	}
+	jt, err := c18lib.JSONTree(b)
+	if err != nil {
+		return []hx.Zs{obs(17, 18)}
+	}
+	out = append(out, withTree(obs(10), jt))
+	var back model.CmdType
+	if err := json.Unmarshal(b, &back); err != nil {
+		return append(out, obs(17, 17))
+	}
+	// what the receiver sees
+	p, d := back.ExtractFilter()
+	var dataObs hx.Zs
+	if cd, err := back.Data(); err != nil {
+		dataObs = obs(16)
+	} else {
+		fnx := int64(-1)
+		if cd.Function != nil {
+			fnx = fnIndex(string(*cd.Function))
+		}
+		dataObs = withTree(obs(11, fnx, int64(clo.Cmd().FieldIndex(cd.FieldName)), structID(cd.Value)), clo.ToTree(reflect.ValueOf(cd.Value)))
+	}
+	return append(out, dataObs, filterObs(0, p), filterObs(1, d))
+}
+
+func execCodec(op hx.Zs) (out []hx.Zs) {
+	defer func() {
+		if r := recover(); r != nil {
+			out = []hx.Zs{{97}}
+		}
+	}()
+	tid := op[1]
+	if tid < 0 || int(tid) >= len(clo.Structs) {
+		return []hx.Zs{{97}}
+	}
+	v, rest, err := c18lib.Parse(op[2:])
+	if err != nil || len(rest) != 0 {
+		return []hx.Zs{{97}}
+	}
+	s := clo.Structs[tid]
+	codecTypes[s.ID]++
+	val := clo.FromTree(v, reflect.PointerTo(s.Type))
+	b, err := json.Marshal(val.Interface())
+	if err != nil {
+		return []hx.Zs{obs(17, 18)}
+	}
+	jt, err := c18lib.JSONTree(b)
+	if err != nil {
+		return []hx.Zs{obs(17, 18)}
+	}
+	out = append(out, withTree(obs(10), jt))
+	back := reflect.New(s.Type)
+	if err := json.Unmarshal(b, back.Interface()); err != nil {
+		return append(out, obs(17, 17))
+	}
+	return append(out, withTree(obs(14), clo.ToTree(back)))
+}
+
+func execDecode(op hx.Zs) (out []hx.Zs) {
+	defer func() {
+		if r := recover(); r != nil {
+			out = []hx.Zs{{97}}
+		}
+	}()
+	tid := op[1]
+	if tid < 0 || int(tid) >= len(clo.Structs) {
+		return []hx.Zs{{97}}
+	}
+	jt, rest, err := c18lib.Parse(op[2:])
+	if err != nil || len(rest) != 0 {
+		return []hx.Zs{{97}}
+	}
+	var buf bytes.Buffer
+	c18lib.RenderJSON(jt, &buf)
+	s := clo.Structs[tid]
+	back := reflect.New(s.Type)
+	if err := json.Unmarshal(buf.Bytes(), back.Interface()); err != nil {
+		decodeOutcome["error"]++
+		return []hx.Zs{obs(17, 17)}
+	}
+	decodeOutcome["ok"]++
+	return []hx.Zs{withTree(obs(14), clo.ToTree(back))}
+}
+
+func (impl) Exec(op hx.Zs) []hx.Zs {
+	if len(op) < 2 {
+		return []hx.Zs{{97}}
+	}
+	switch op[0] {
+	case 0:
+		if len(op) < 7 || op[3] < 0 || op[3] > 11 || op[2] < 0 || int(op[2]) >= len(fac.Functions) || op[1] < 0 || int(op[1]) >= len(fac.FeatureTypes) {
+			return []hx.Zs{{21}}
+		}
+		return execRow(op)
+	case 1:
+		return execCodec(op)
+	case 2:
+		return execDecode(op)
+	}
+	return []hx.Zs{{97}}
+}
+
+// ---------------------------------------------------------------- generators
+
+func rowOp(ft, fn int, shape int64, data, sel, el c18lib.V) hx.Zs {
+	return withTree(hx.Zs{0, int64(ft), int64(fn), shape}, data, sel, el)
+}
+
+func sampleRow(ft, fn int, shape int64, depth int) hx.Zs {
+	f := fac.Functions[fn]
+	return rowOp(ft, fn, shape, clo.SampleStruct(depth, f.Data), clo.SampleStruct(depth, f.Sel), clo.SampleStruct(depth, f.El))
+}
+
+// fixed: the exhaustive function x shape sweep over the sample values the theorem
+// C18_recognised computes on (depths 0, 1, 2).
+func fixed(tier string) [][]hx.Zs {
+	var out [][]hx.Zs
+	// small histories first (they are the in-Coq cross-check sample)
+	for i := 0; i < len(fac.Registered); i += 11 {
+		r := fac.Registered[i]
+		var h []hx.Zs
+		for _, sh := range []int64{1, 3, 8} {
+			h = append(h, sampleRow(r[0], r[1], sh, 0))
+		}
+		out = append(out, h)
+	}
+	seenFn := map[int]bool{}
+	for _, r := range fac.Registered {
+		depths := []int{1}
+		if !seenFn[r[1]] || tier == "thorough" {
+			depths = []int{0, 1, 2}
+			seenFn[r[1]] = true
+		}
+		for _, d := range depths {
+			var h []hx.Zs
+			for sh := int64(0); sh < 12; sh++ {
+				h = append(h, sampleRow(r[0], r[1], sh, d))
+			}
+			out = append(out, h)
+		}
+	}
+	return out
+}
+
+var alphabet = []string{"", "a", "s", "abc", "Zeta", "0", "-1", "true", "null", " ", "a b", "\"", "\\", "/", "<", ">", "&", "\n", "\t",
+	"\u0001", "\u007f", "é", "ß", "日本", "😀", " ", " ", "{}", "[]", ":", ",", "key", "KEY"}
+
+func genString(r *hx.Rng) string {
+	n := r.Pick(3, 5, 3, 1)
+	var b strings.Builder
+	for i := 0; i < n; i++ {
+		b.WriteString(alphabet[r.Intn(len(alphabet))])
+	}
+	s := b.String()
+	// never an ISO-8601 duration (the TimePeriodType clause is exercised apart)
+	if strings.HasPrefix(s, "P") || strings.HasPrefix(s, "-P") || strings.HasPrefix(s, "+P") {
+		s = "x" + s
+	}
+	return s
+}
+
+func genInt(r *hx.Rng, k c18lib.Kind) int64 {
+	var lo, hi int64
+	fmt.Sscan(k.Lo, &lo)
+	if _, err := fmt.Sscan(k.Hi, &hi); err != nil {
+		hi = 1<<63 - 1 // uint64: the wire carries int64
+	}
+	switch r.Pick(3, 3, 1, 1, 2) {
+	case 0:
+		return 0
+	case 1:
+		return int64(r.Intn(100))
+	case 2:
+		return lo
+	case 3:
+		return hi
+	}
+	x := int64(r.U64() >> 1)
+	if x > hi {
+		x = x % (hi + 1)
+	}
+	if lo < 0 && r.Bool() {
+		x = -x
+		if x < lo {
+			x = lo
+		}
+	}
+	return x
+}
+
+func genKind(r *hx.Rng, k c18lib.Kind, depth int) c18lib.V {
+	switch k.K {
+	case "bool":
+		return c18lib.V{Tag: c18lib.TBool, B: r.Bool()}
+	case "int":
+		return c18lib.V{Tag: c18lib.TInt, Z: genInt(r, k)}
+	case "str":
+		return c18lib.V{Tag: c18lib.TStr, S: genString(r)}
+	case "struct":
+		return genStruct(r, clo.Structs[k.Struct], depth)
+	}
+	return c18lib.Nil
+}
+
+func genStruct(r *hx.Rng, s *c18lib.Struct, depth int) c18lib.V {
+	v := c18lib.V{Tag: c18lib.TStruct, L: []c18lib.V{}}
+	for _, f := range s.Fields {
+		var x c18lib.V
+		nilChance := 35 + 12*depth
+		if f.Ty.Kind.K == "struct" && depth >= 4 {
+			nilChance = 100
+		}
+		switch f.Ty.Shape {
+		case "ptr":
+			if r.Chance(nilChance, 100) {
+				x = c18lib.Nil
+			} else {
+				x = genKind(r, f.Ty.Kind, depth+1)
+			}
+		case "slice":
+			switch {
+			case r.Chance(nilChance, 100):
+				x = c18lib.Nil
+			case r.Chance(15, 100):
+				x = c18lib.V{Tag: c18lib.TList, L: []c18lib.V{}}
+			default:
+				x = c18lib.V{Tag: c18lib.TList, L: []c18lib.V{}}
+				for i, n := 0, r.Range(1, 3); i < n; i++ {
+					x.L = append(x.L, genKind(r, f.Ty.Kind, depth+1))
+				}
+			}
+		default:
+			x = genKind(r, f.Ty.Kind, depth+1)
+		}
+		v.L = append(v.L, x)
+	}
+	if s.Custom && s.Name == "TimePeriodType" {
+		// keep the custom (un)marshaller on its identity branch: a start time whenever there is an end time
+		si, ei := s.FieldIndex("StartTime"), s.FieldIndex("EndTime")
+		if si >= 0 && ei >= 0 && !v.L[ei].IsNil() && v.L[si].IsNil() {
+			v.L[si] = c18lib.V{Tag: c18lib.TStr, S: "2024-01-01T00:00:00Z"}
+		}
+	}
+	return v
+}
+
+// the types the property quantifies over: every command payload, selector and elements type
+var valueRoots []*c18lib.Struct
+
+func initRoots() {
+	for _, f := range clo.Cmd().Fields {
+		if f.Ty.Kind.K == "struct" && f.Go != "Filter" {
+			valueRoots = append(valueRoots, clo.Structs[f.Ty.Kind.Struct])
+		}
+	}
+	for _, f := range clo.Filter().Fields {
+		if f.Ty.Kind.K == "struct" {
+			valueRoots = append(valueRoots, clo.Structs[f.Ty.Kind.Struct])
+		}
+	}
+	valueRoots = append(valueRoots, clo.Cmd(), clo.Filter(), clo.Structs[0])
+}
+
+func flipCase(s string, r *hx.Rng) string {
+	b := []byte(s)
+	for i := range b {
+		if r.Chance(1, 3) {
+			switch {
+			case b[i] >= 'a' && b[i] <= 'z':
+				b[i] -= 32
+			case b[i] >= 'A' && b[i] <= 'Z':
+				b[i] += 32
+			}
+		}
+	}
+	return string(b)
+}
+
+// mutate perturbs a JSON tree the way a foreign peer might: unknown members, nulls,
+// other key case, reordered members, wrong kinds, out-of-range numbers, repeated scalars.
+func mutate(r *hx.Rng, v c18lib.V, budget *int) c18lib.V {
+	switch v.Tag {
+	case c18lib.TObj:
+		out := c18lib.V{Tag: c18lib.TObj, L: []c18lib.V{}, Keys: []string{}}
+		for i, x := range v.L {
+			k := v.Keys[i]
+			if *budget > 0 && r.Chance(1, 12) {
+				*budget--
+				switch r.Intn(6) {
+				case 0:
+					k = flipCase(k, r)
+				case 1:
+					x = c18lib.Nil
+				case 2:
+					out.Keys = append(out.Keys, "unknown"+k)
+					out.L = append(out.L, c18lib.V{Tag: c18lib.TInt, Z: 1})
+				case 3:
+					if x.Tag == c18lib.TInt || x.Tag == c18lib.TStr || x.Tag == c18lib.TBool {
+						out.Keys = append(out.Keys, k) // an earlier duplicate that the later member overrides
+						out.L = append(out.L, x)
+					}
+				case 4:
+					switch x.Tag {
+					case c18lib.TInt:
+						x = c18lib.V{Tag: c18lib.TInt, Z: []int64{-1, 256, 1 << 40, -(1 << 62)}[r.Intn(4)]}
+					case c18lib.TStr:
+						x = c18lib.V{Tag: c18lib.TInt, Z: 5}
+					case c18lib.TBool:
+						x = c18lib.V{Tag: c18lib.TStr, S: "true"}
+					}
+				case 5:
+					continue // member dropped
+				}
+			}
+			out.Keys = append(out.Keys, k)
+			out.L = append(out.L, mutate(r, x, budget))
+		}
+		if *budget > 0 && len(out.L) > 1 && r.Chance(1, 6) {
+			*budget--
+			i, j := r.Intn(len(out.L)), r.Intn(len(out.L))
+			out.L[i], out.L[j] = out.L[j], out.L[i]
+			out.Keys[i], out.Keys[j] = out.Keys[j], out.Keys[i]
+		}
+		return out
+	case c18lib.TList:
+		out := c18lib.V{Tag: c18lib.TList, L: []c18lib.V{}}
+		for _, x := range v.L {
+			if *budget > 0 && r.Chance(1, 20) {
+				*budget--
+				x = c18lib.Nil
+			}
+			out.L = append(out.L, mutate(r, x, budget))
+		}
+		return out
+	}
+	return v
+}
+
+func gen(r *hx.Rng, tier string, i int) []hx.Zs {
+	switch r.Pick(6, 2, 2) {
+	case 0: // values of the payload / selector / elements types, and their JSON perturbed
+		var h []hx.Zs
+		for n := r.Range(2, 3); n > 0; n-- {
+			s := valueRoots[r.Intn(len(valueRoots))]
+			v := genStruct(r, s, r.Pick(3, 1, 1))
+			h = append(h, withTree(hx.Zs{1, int64(s.ID)}, v))
+			if r.Chance(1, 2) {
+				b, err := json.Marshal(clo.FromTree(v, reflect.PointerTo(s.Type)).Interface())
+				if err == nil {
+					if jt, err := c18lib.JSONTree(b); err == nil {
+						budget := 3
+						h = append(h, withTree(hx.Zs{2, int64(s.ID)}, mutate(r, jt, &budget)))
+					}
+				}
+			}
+		}
+		return h
+	case 1: // rows with random payload, selector and elements
+		var h []hx.Zs
+		for n := r.Range(2, 4); n > 0; n-- {
+			reg := fac.Registered[r.Intn(len(fac.Registered))]
+			f := fac.Functions[reg[1]]
+			data, sel, el := c18lib.Nil, c18lib.Nil, c18lib.Nil
+			if r.Chance(4, 5) {
+				data = genStruct(r, f.Data, 1)
+			}
+			if f.Sel != nil {
+				sel = genStruct(r, f.Sel, 0)
+			}
+			if f.El != nil {
+				el = genStruct(r, f.El, 0)
+			}
+			h = append(h, rowOp(reg[0], reg[1], int64(r.Intn(12)), data, sel, el))
+		}
+		return h
+	default: // whole commands and datagrams
+		var h []hx.Zs
+		for n := 2; n > 0; n-- {
+			s := []*c18lib.Struct{clo.Cmd(), clo.Filter(), clo.Structs[0]}[r.Intn(3)]
+			v := genStruct(r, s, 2)
+			h = append(h, withTree(hx.Zs{1, int64(s.ID)}, v))
+		}
+		return h
+	}
+}
+
+// emitCorpus writes the regression inputs: the rows that failed on the pinned tree
+// (repaired by the fix: patches) and the witnesses of the two recorded findings.
+func emitCorpus(dir string) {
+	ftIdx := func(name string) int {
+		for i, ft := range fac.FeatureTypes {
+			if ft == name {
+				return i
+			}
+		}
+		panic("feature type " + name)
+	}
+	type row struct {
+		file, ft, fn, what string
+		shapes             []int64
+	}
+	rows := []row{
+		{"fixed-delete-filter-panic", "Measurement", "measurementListData", "NotifyOrWriteCmdType with a delete selector / delete elements panicked (pointer to interface handed to reflect.Convert)", []int64{7, 8, 11}},
+		{"fixed-tag-networkmanagement-featuredescription-selectors", "NetworkManagement", "networkManagementFeatureDescriptionListData", "selector dropped: tag fct:networkManagementFeatureDescriptionList", []int64{1, 6, 7}},
+		{"fixed-tag-sessionidentification-elements", "Generic", "sessionIdentificationListData", "elements dropped: tag fct:sessionIdentificationData", []int64{2, 8}},
+		{"fixed-tag-sessionmeasurementrelation-elements", "Generic", "sessionMeasurementRelationListData", "elements dropped: tag fct:sessionMeasurementRelationData", []int64{2, 8}},
+		{"fixed-tag-measurementseries-selectors", "Measurement", "measurementSeriesListData", "selector dropped: eebus tag without typ:/fct: keys", []int64{1, 6, 7}},
+		{"finding-setpoint-description-elements-tag", "Setpoint", "setpointDescriptionListData", "elements dropped: tag fct: (empty)", []int64{2, 8}},
+		{"finding-shared-elements-type", "ElectricalConnection", "electricalConnectionCharacteristicData", "elements dropped: ElectricalConnectionCharacteristicDataElements is tagged for the list function", []int64{2, 8}},
+	}
+	for _, r := range rows {
+		fn := -1
+		for _, reg := range fac.Registered {
+			if reg[0] == ftIdx(r.ft) && fac.Functions[reg[1]].Name == r.fn {
+				fn = reg[1]
+			}
+		}
+		if fn < 0 {
+			panic("row " + r.file)
+		}
+		var h []hx.Zs
+		for _, sh := range r.shapes {
+			h = append(h, sampleRow(ftIdx(r.ft), fn, sh, 1))
+		}
+		b, _ := json.Marshal(map[string]any{"property": "C18", "note": r.what,
+			"row": fmt.Sprintf("feature type %s, function %s, shapes %v", r.ft, r.fn, r.shapes), "history": h})
+		if err := os.WriteFile(filepath.Join(dir, r.file+".json"), b, 0o644); err != nil {
+			panic(err)
+		}
+	}
+}
+
+func main() {
+	clo = c18lib.NewClosure()
+	var err error
+	// the repository root is only needed for the AST-derived parts of the factory table
+	fac, err = c18lib.NewFactory(clo, c18lib.RepoRoot())
+	if err != nil {
+		fmt.Println("c18:", err)
 		panic(err)
 	}
-	nm := func(s *c18lib.Struct) string {
-		if s == nil {
-			return "-"
-		}
-		return s.Name
+	initRoots()
+	if len(os.Args) == 3 && os.Args[1] == "emit-corpus" {
+		emitCorpus(os.Args[2])
+		return
 	}
-	ns, ne := 0, 0
-	for _, f := range fa.Functions {
-		if f.Sel != nil {
-			ns++
-		}
-		if f.El != nil {
-			ne++
-		}
-		if f.Sel != f.TagSel || f.El != f.TagEl {
-			fmt.Printf("%s data=%s conv sel=%s el=%s  tags sel=%s el=%s\n", f.Name, f.Data.Name, nm(f.Sel), nm(f.El), nm(f.TagSel), nm(f.TagEl))
-		}
-		if f.El == nil {
-			fmt.Printf("no elements type: %s (%s)\n", f.Name, f.Data.Name)
-		}
-	}
-	fmt.Println(len(fa.Functions), "functions", len(fa.Registered), "registered", ns, "with selectors", ne, "with elements", fa.Unregistered)
-	// filter fields not used by any registered function by convention
-	used := map[*c18lib.Struct]bool{}
-	for _, f := range fa.Functions {
-		used[f.Sel] = true
-		used[f.El] = true
-	}
-	for _, f := range c.Filter().Fields {
-		if f.Ty.Kind.K == "struct" && f.Go != "CmdControl" && !used[c.Structs[f.Ty.Kind.Struct]] {
-			fmt.Println("filter field of no registered function:", f.Go, f.Eebus)
-		}
-	}
+	hx.Main(hx.Config{
+		Property: "C18",
+		Model:    "c18",
+		Clauses: map[int64]string{1: "builds-and-decodes", 2: "function-recognised", 3: "payload-type", 4: "payload-equal",
+			5: "partial-selector", 6: "partial-elements", 7: "delete-selector", 8: "delete-elements", 9: "filter-presence",
+			10: "value-roundtrip", 11: "shared-elements-type", 12: "setpoint-description-elements-tag",
+			98: "observation-outside-model-vocabulary", 99: "operation-not-parsed"},
+		OpNames: map[int64]string{0: "Row", 1: "Codec", 2: "Decode"},
+		NewImpl: func() hx.Impl { return impl{} },
+		Gen:     gen,
+		Fixed:   fixed,
+		Count:   map[string]int{"quick": 1500, "thorough": 60000},
+		Extra: func() map[string]any {
+			types := 0
+			for range codecTypes {
+				types++
+			}
+			var rows []string
+			for r := range failingRows {
+				rows = append(rows, r)
+			}
+			return map[string]any{
+				"structs": len(clo.Structs), "fields": clo.NumFields(), "functions": len(fac.Functions),
+				"registered_pairs": len(fac.Registered), "feature_types": len(fac.FeatureTypes),
+				"rows_per_feature_type": rowsRun, "rows_per_shape": shapesRun, "rows_not_applicable": notApplicable,
+				"codec_distinct_types": types, "decode_outcomes": decodeOutcome, "panics": panicsSeen,
+				"rows_that_panicked": rows,
+			}
+		},
+	})
 }
